@@ -161,3 +161,19 @@ def expectedReadCallShapes : List (String × String × String) := [
 theorem readCallShapes_tie : (readCallShapes == expectedReadCallShapes) = true := by decide +kernel
 
 end Keto.FactsTie
+
+namespace Keto.FactsTie
+open Keto.Facts
+
+/-- Every raw SQL statement on `keto_relation_tuples` restricts each occurrence of the
+    table to the network id (or, for INSERT, writes the nid column): C06. The verdicts
+    are computed by the fact translator from the string literals of the sources. -/
+def expectedSqlNid : List (String × String × String) := [
+  ("internal/persistence/sql/relationtuples.go", "buildDelete", "nid-predicates:1/tables:1"),
+  ("internal/persistence/sql/relationtuples.go", "buildInsert", "insert-writes-nid"),
+  ("internal/persistence/sql/traverser.go", "Traverser.TraverseSubjectSetExpansion", "nid-predicates:2/tables:2")
+]
+
+theorem sqlNid_tie : (sqlNid == expectedSqlNid) = true := by decide +kernel
+
+end Keto.FactsTie
